@@ -209,11 +209,19 @@ pub fn client_core_data(parameter: Option<ClientData>) -> Component {
             name: "".to_string()
         });
 
-    let client_name = if client_parameter.name.len() >= 16 {
-        (&client_parameter.name[0..16]).to_string()
-    } else {
-        client_parameter.name.clone() + &"\x00".repeat(16 - client_parameter.name.len())
-    };
+    // The client name is a fixed field of 32 bytes :
+    // at most 15 UTF-16 code units and the null terminator
+    let mut truncated_name = String::new();
+    let mut code_units = 0;
+    for c in client_parameter.name.chars() {
+        if code_units + c.len_utf16() > 15 {
+            break;
+        }
+        code_units += c.len_utf16();
+        truncated_name.push(c);
+    }
+    let mut client_name = truncated_name.to_unicode();
+    client_name.resize(32, 0);
 
     component![
         "version" => U32::LE(client_parameter.rdp_version as u32),
@@ -223,7 +231,7 @@ pub fn client_core_data(parameter: Option<ClientData>) -> Component {
         "sasSequence" => U16::LE(Sequence::RnsUdSasDel as u16),
         "kbdLayout" => U32::LE(client_parameter.layout as u32),
         "clientBuild" => U32::LE(3790),
-        "clientName" => client_name.to_string().to_unicode(),
+        "clientName" => client_name,
         "keyboardType" => U32::LE(KeyboardType::Ibm101102Keys as u32),
         "keyboardSubType" => U32::LE(0),
         "keyboardFnKeys" => U32::LE(12),
